@@ -129,8 +129,16 @@ def gen_heap(ctx, fail="0"):
     return cases
 
 
+# far-apart times: differences of 2^31 s and more, and multiples of 2^32 s (a comparison that
+# truncates the difference of two time_t values to int gets these wrong)
+WIDE_BASES = [0, 0, 5, 2 ** 31 - 1, 2 ** 31, 2 ** 31 + 5, 2 ** 32, 2 ** 32 + 5, 3 * 10 ** 9, 2 ** 33, 2 ** 40]
+
+
 def rtv(r, span):
-    sec = r.randrange(-2, span)
+    if isinstance(span, tuple):        # ("wide", n): a base from WIDE_BASES plus a small offset
+        sec = r.choice(WIDE_BASES) + r.randrange(-2, span[1])
+    else:
+        sec = r.randrange(-2, span)
     usec = r.choice([0, 0, 1, 499999, 999999, r.randrange(1000000)])
     return sec, usec
 
@@ -184,7 +192,8 @@ def gen_tq_ops(r, nops, span, drain=True):
         else:
             ops.append("G")
     if drain:
-        ops += ["P%d.0" % (span + 10)] * (len(live) + 3)
+        top = (2 ** 41 + span[1]) if isinstance(span, tuple) else span
+        ops += ["P%d.0" % (top + 10)] * (len(live) + 3)
     return ops
 
 
@@ -193,7 +202,10 @@ def gen_tq(ctx, fail="0"):
     cases = []
     for _ in range(ctx.n(1200, 25000)):
         cls = r.random()
-        if cls < 0.6:
+        if cls < 0.12:
+            nops, span = r.randrange(2, 60), ("wide", r.choice([1, 3, 10]))
+            ctx.count("tq.wide-times")
+        elif cls < 0.6:
             nops, span = r.randrange(0, 40), r.choice([1, 2, 3, 10])
             ctx.count("tq.ops.0-40")
         elif cls < 0.93:
